@@ -94,6 +94,11 @@ Definition rejects_all_neg (g : guard) (d : dim) : bool :=
 Definition covers (gs : list guard) (d : dim) : bool :=
   existsb (fun g => rejects_all_ge g d) gs && existsb (fun g => rejects_all_neg g d) gs.
 
+(* the same without the `.max(k)` form: sound for every dimension >= 0 *)
+Definition plain_rhs (g : guard) : bool := match g_rhs g with ODimMax _ _ => false | _ => true end.
+Definition covers_strict (gs : list guard) (d : dim) : bool :=
+  existsb (fun g => rejects_all_ge g d && plain_rhs g) gs && existsb (fun g => rejects_all_neg g d) gs.
+
 (* the guard rejects every value below lo / above hi *)
 Definition rejects_below (g : guard) (lo : Z) : bool :=
   match g_cast g, g_cmp g, g_rhs g with
